@@ -1673,7 +1673,8 @@ def _inep_classify(trace, matched, status, meta):
         accepts = [e for e in ours if e["e"] == "ack" and e.get("what") == "accept"]
         if accepts and not accepts[-1]["next_ready"] and rec["seq"] == (len(accepts) - 1) % 32:
             return {"clause": status, "pattern": "sequence_not_advanced_by_ack_without_buffered_packet"}
-    racing = [e for e in ours if e["e"] == "w" and e["last"] and e.get("with_accept")]
+    # the stuck word must be recent: at most a handful of our events (the polls answered NRDY) since it was accepted
+    racing = [e for e in ours[-8:] if e["e"] == "w" and e["last"] and e.get("with_accept")]
     if status in ("nrdy_while_holding_data", "request_unanswered", "erdy_missing") and racing:
         return {"clause": "packet_stuck", "detail": status, "pattern": "last_word_accepted_in_cycle_of_acknowledging_ack"}
     if status == "erdy_without_nrdy":
